@@ -72,6 +72,10 @@ inline std::string sanitizer_summary_of(pid_t pid)
    return sum.empty() ? first : sum;
 }
 
+#ifdef VERIF_COVERAGE
+extern "C" void __gcov_dump();
+#endif
+
 struct ForkStats { long long children = 0, deaths = 0, stalls = 0, completed = 0; };
 
 // Runs all cases; `stall_seconds`: no progress for that long => the child is killed and the case in flight recorded as hung.
@@ -99,6 +103,9 @@ inline ForkStats run_cases_forked(Ctx& C, const std::vector<ForkCase>& cases, in
             }
          });
          ::close(pfd[1]);
+#ifdef VERIF_COVERAGE
+         __gcov_dump();         // developer-facing coverage build (tools/coverage.py): children leave through _exit
+#endif
          _exit(0);
       }
       ++S.children;
